@@ -153,6 +153,9 @@ def run(ctx: Ctx):
     # ------------------------------------------------------------- FRESH: history independence of returned objects (spec/Fresh.tla)
     from vf import fresh
     fresh.step(ctx, "C08")
+    # ------------------------------------------------------------- VIEW: views after every edit history (spec/View.tla)
+    from vf import view
+    view.step(ctx, "C08")
     return ctx.finish(rule=(
         "all scalar values over {a A , ; : = ' ^ SP \\ % 2 C} up to length 3/4, all 2-3 element lists of values of length "
         "<=1/2, all pairs of parameters with mixed-case names, plus random longer Unicode maps; non-trivial = some value "
